@@ -1,9 +1,10 @@
 """C09 - object ids in a scenario stay unique and the id pool stays exact.
 
 Histories are recipes: a universe of objects with ids from a 14-value pool plus a list of operations that ``check``
-interprets step by step in lock-step with an abstract id-pool model (``used: id -> kind``, ``generated``).  The model is
-fed from the recipe only (never from the scenario's private bookkeeping); the scenario is observed through its public
-accessors, the exceptions of add_objects, the return values of generate_object_id and a probe on a deep copy.
+interprets step by step in lock-step with an abstract id-pool model (``used: id -> kind``, ``generated``).  The model's
+kinds and ids come from the recipe (never from the scenario's private bookkeeping; the only thing read from a library
+object is the sign/light reference set a lanelet carries at the moment it is added); the scenario is observed through
+its public accessors, the exceptions of add_objects, the return values of generate_object_id and probes on deep copies.
 """
 import copy
 import warnings
@@ -38,13 +39,16 @@ ASSUMPTIONS = [
     "obstacles carry no lanelet assignment (initial_shape_lanelet_ids / shape_lanelet_assignment None): the "
     "obstacle-lanelet registry belongs to C07",
     "lanelets carry no predecessor/successor/adjacency relations and no stop lines (C10); signs and lights are "
-    "referenced only through add_objects(obj, lanelet_ids) with ids of contained lanelets",
+    "referenced only through add_objects(obj, lanelet_ids) with ids of contained lanelets; before a removed lanelet "
+    "is added again its references to signs/lights that are no longer contained are dropped through the public "
+    "setters (what the library does with dangling references is unspecified)",
     "intersections are added with incoming lanelets taken from the currently contained lanelets; a removed "
     "intersection is re-added only while every lanelet it still references is contained",
     "replace_lanelet_network / add_objects(LaneletNetwork over a non-empty network) with a network that collides with "
-    "an obstacle id must raise ValueError; afterwards either 'unchanged' or 'old network erased' is accepted (the "
-    "pool must be exact in both); add_objects(LaneletNetwork) over a non-empty network without collision may merge or "
-    "replace; a new network colliding only with the old network's ids is not generated for that operation",
+    "an obstacle id must raise ValueError; afterwards either 'unchanged' or 'old network erased' is accepted; "
+    "add_objects(LaneletNetwork) over a non-empty network without collision may merge or replace; with ids shared "
+    "only with the displaced network it may reject (unchanged) or replace; in every case the accessors must show "
+    "exactly one of the admissible outcomes and the id pool must be exact for it (probe right after the operation)",
     "erase_lanelet_network is exercised only through replace_lanelet_network (an empty replacement network included)",
 ]
 
@@ -347,8 +351,8 @@ class World:
     def fail_free_rejected(self, what, ids, err):
         cp = copy.deepcopy(self.sc)
         leaked = [i for i in sorted(ids) if i not in self.used and not self.accepts(cp, i)]
-        origins = sorted({self.touch[i] for i in leaked if i in self.touch}) or ["unknown"]
-        self.fail("leaked-id:after-" + origins[0],
+        origins = sorted({"after-" + self.touch[i] for i in leaked if i in self.touch}) or ["during-" + self.cur]
+        self.fail("leaked-id:" + origins[0],
                   "%s: all ids are free but add_objects raised %r; ids %r are reserved although no contained object "
                   "uses them (leaked by: %r)" % (what, err, leaked, origins))
 
